@@ -5,7 +5,7 @@ strings, well-formed and malformed payloads), on a member that already holds dat
 answers every request (value or error) and stays responsive.  No Lean model for the handler bodies."""
 NO_MODEL = True
 HEADER = 3
-REQUIRED_SHAPES = ["crafted_routing_push", "one_reply_per_command", "subscriber_mode_sequences", "entry_size_around_table_size", "skeleton_mutations", "malformed_raw_entry", "all_commands_covered", "numeric_extremes", "member_alive_checked"]
+REQUIRED_SHAPES = ["crafted_fragment_handover", "crafted_routing_push", "one_reply_per_command", "subscriber_mode_sequences", "entry_size_around_table_size", "skeleton_mutations", "malformed_raw_entry", "all_commands_covered", "numeric_extremes", "member_alive_checked"]
 
 NUM = [b"0", b"1", b"-1", b"6", b"7", b"100000", b"9223372036854775807", b"-9223372036854775808", b"18446744073709551615",
        b"99999999999999999999999", b"1.5", b"-0.5", b"NaN", b"abc", b""]
@@ -40,6 +40,15 @@ class Oracle:
                         pass
                 cmd = " ".join(t if t else "''" for t in toks)[:160]
                 return "no reply to [%s]: %s" % (cmd, reply)
+            return None
+        if f[0] == "c.badfragment":
+            self.hit("crafted_fragment_handover")
+            if reply == "no-partition":
+                return None
+            if reply.startswith("noreply") or not reply.endswith(" alive"):
+                return ("a fragment hand-over for a partition the member owns, whose table has %s: %s" % (
+                    {"offset": "a write offset beyond its allocation", "hkey": "an index entry pointing outside the table",
+                     "vlen": "a value length that runs past the end", "short": "less memory than its offset says"}.get(f[2], f[2]), reply[:100]))
             return None
         if f[0] == "c.badrouting":
             self.hit("crafted_routing_push")
@@ -157,6 +166,11 @@ class Gen:
                 yield "c.badrouting %d %s" % (m, variant)
                 yield "c.get cli %d h %s" % (1 - m, hx(b"k1"))
                 yield "c.get cli %d h %s" % (m, hx(b"k2"))
+        for variant in ("offset", "hkey", "vlen", "short"):
+            m = r.randrange(2)
+            yield "c.badfragment %d %s" % (m, variant)
+            yield "c.get cli %d h %s" % (1 - m, hx(b"k1"))
+            yield "c.get cli %d h %s" % (m, hx(b"k2"))
         # what a connection remembers: subscriber mode.  Every short sequence of (un)subscriptions - held, not held, held by
         # ANOTHER connection, the other kind, none, empty - and of commands that are not allowed in that mode, over one connection
         yield "c.rawseq 1 %s | %s" % (" ".join(hx(t) for t in [b"subscribe", b"other"]), " ".join(hx(t) for t in [b"psubscribe", b"o*"]))
